@@ -91,6 +91,9 @@ class Interp:
         self.construction_hook = None
         self.return_hook = None
         self.pending_closures = []
+        self.inv_targets = None
+        self.inv_records = {}
+        self.entered = set()
         self.cur_site = None
         self.cur_sp = None
         self.cur_expn = None
@@ -298,12 +301,22 @@ class Interp:
                     cap = a["c"]
             capl = Lin.const(cap) if cap is not None else Lin.atom(reg_atom(("cap", key), 0, I64MAX))
             ln = reg_atom(("veclen", key), 0, cap if cap is not None else I64MAX)
-            return VVec("arrayvec", Lin.atom(ln), capl, key)
+            ety = None
+            for a in t["args"]:
+                if "t" in a:
+                    ety = self.rt(a["t"])
+                    break
+            return VVec("arrayvec", Lin.atom(ln), capl, key, ety)
         if path == "alloc::vec::Vec":
             ln = reg_atom(("veclen", key), 0, I64MAX)
             cp = reg_atom(("cap", key), 0, I64MAX)
             st.add_ge0(Lin.atom(cp) - Lin.atom(ln))
-            return VVec("vec", Lin.atom(ln), Lin.atom(cp), key)
+            ety = None
+            for a in t["args"]:
+                if "t" in a:
+                    ety = self.rt(a["t"])
+                    break
+            return VVec("vec", Lin.atom(ln), Lin.atom(cp), key, ety)
         if path == "core::mem::MaybeUninit" or path == "core::mem::maybe_uninit::MaybeUninit":
             return VOpaque(t, key)
         adt = self.F.adts.get(path)
@@ -329,6 +342,8 @@ class Interp:
         from .inv import instantiate_inv
         disj = instantiate_inv(self.inv[path], key)
         if not disj:
+            if self.inv[path].get("bottom"):
+                raise Infeasible()
             return
         if len(disj) == 1:
             for l in disj[0]:
@@ -552,12 +567,34 @@ class Interp:
             return self.project_value(st, v, {"cidx": p[1], "from_end": p[2]})
         return VOpaque(None, ("sv", fresh_id()))
 
+    def record_construction(self, st, v):
+        if self.root is not None and self.root.get("unsafe"):
+            return
+        from .inv import extract_disjuncts
+        tgt = self.inv_targets[v.path]
+        try:
+            conjs = extract_disjuncts(self, st, v, drop_fields=tgt)
+        except Infeasible:
+            return
+        self.inv_records.setdefault(v.path, []).extend(conjs)
+        if any(len(c) == 0 for c in conjs):
+            self.sink.events.append(("inv_empty", v.path, st.frames[-1].body["path"], self.cur_sp,
+                                     repr(v)[:300], "; ".join(show_lin(f) for f in st.facts[:12])))
+
     def store(self, st, cur, val):
         kind = cur[0]
         if kind == "place":
             root = self.get_root(st, cur[1], cur[2])
             nv = self.update_value(st, root, cur[3], val)
             self.set_root(st, cur[1], cur[2], nv)
+            if self.inv_targets is not None and cur[3]:
+                # a write below a struct with an inferred invariant is a construction site of that struct
+                projs = cur[3]
+                v = nv
+                for i, p in enumerate(projs):
+                    if isinstance(v, VAdt) and v.variant == 0 and v.path in self.inv_targets and p[0] == "f":
+                        self.record_construction(st, v)
+                    v = self.step_value(st, v, p)
             return
         if kind == "byte":
             self.write_byte(st, cur[1], cur[2], val)
@@ -652,9 +689,10 @@ class Interp:
                 if arr.elems is not None:
                     a = r.off + (lo if lo is not None else Lin.const(0))
                     ln = n if n is not None else r.len
-                    if a.is_const() and ln.is_const():
+                    if a.is_const():
                         es = list(arr.elems)
-                        for i in range(a.c, min(a.c + ln.c, len(es))):
+                        hi_i = min(a.c + ln.c, len(es)) if ln.is_const() else len(es)
+                        for i in range(a.c, hi_i):
                             if i >= 0:
                                 es[i] = VInt(Lin.atom(reg_atom(("v", ("mb", fresh_id())), 0, 255)))
                         self.store(st, cur, VArray(tuple(es), arr.n, arr.key, arr.ety))
@@ -926,6 +964,8 @@ class Interp:
                     return VInt(a.len)
                 if isinstance(a, VVec):
                     return VInt(a.len)
+                if hasattr(a, "ety") and hasattr(a, "len") and isinstance(a.len, Lin):
+                    return VInt(a.len)
             return self.materialize(st, dest_ty, ("un", fresh_id()))
         if k == "cast":
             return self.eval_cast(st, fr, rv, dest_ty)
@@ -948,8 +988,8 @@ class Interp:
             if a == "adt":
                 t = dest_ty if isinstance(dest_ty, dict) and dest_ty.get("k") == "adt" else None
                 v = VAdt(kind["path"], kind["variant"], tuple(ops), None, t)
-                if self.construction_hook:
-                    self.construction_hook(self, st, fr, v, kind)
+                if self.inv_targets is not None and kind["path"] in self.inv_targets:
+                    self.record_construction(st, v)
                 return v
             if a == "closure":
                 return VClosure(kind["path"], ops)
@@ -1185,6 +1225,7 @@ class Interp:
         depth = len(st.frames)
         fr = Frame(fid, body, locs, 0, ret_k, depth, callsite, tysubst)
         st.frames.append(fr)
+        self.entered.add(body["path"])
         return fr
 
     def analyze_root(self, body, assume_inv=True):
@@ -1527,7 +1568,7 @@ class Interp:
                 return r
         body = self.F.bodies.get(path) if (callee.get("res_local") or (callee.get("res") is None and callee.get("local"))) else None
         if body is not None and callee.get("res") is not None:
-            return self.call_body(st, body, args, dty, ret_k, site, callee)
+            return self.call_body(st, body, args, dty, ret_k, site, callee, force=bool(body.get("unsafe")))
         # unmodelled
         if callee.get("unsafe"):
             self.oblige(st, "prec", "unmodelled unsafe call " + path, False, site, sp, "", expn=expn)
@@ -1539,6 +1580,8 @@ class Interp:
         path = body["path"]
         recursive = any(f.body is body for f in st.frames)
         if (depth > self.max_depth and not force) or recursive or depth > self.max_depth + 3:
+            if body.get("unsafe"):
+                self.oblige(st, "prec", "unsafe fn %s not inlined (depth)" % path, False, site, self.cur_sp)
             self.opaque_calls.append((path, self.ctx(st), st.frames[-1].body["path"], site))
             return self.havoc_call(st, args, dty, ret_k, None, callee_body=body)
         self.new_frame(st, body, args, ret_k, site)
@@ -1613,7 +1656,7 @@ class Interp:
             return VBool(("ge", Lin.atom(a) - 1))
         if isinstance(old, VAdt):
             if old.ty is not None:
-                return self.materialize(st, old.ty, key, assume_inv=False)
+                return self.materialize(st, old.ty, key, assume_inv=True)
             if old.fields is not None and self.F.adts.get(old.path, {}).get("kind") == "struct":
                 return VAdt(old.path, old.variant, tuple(self.havoc_value(st, f) for f in old.fields), key, None)
             return VOpaque(None, key)
@@ -1629,7 +1672,7 @@ class Interp:
                 cp = reg_atom(("cap", key), 0, I64MAX)
                 st.add_ge0(Lin.atom(cp) - Lin.atom(ln))
                 cap = Lin.atom(cp)
-            return VVec(old.kind, Lin.atom(ln), cap, key)
+            return VVec(old.kind, Lin.atom(ln), cap, key, old.elems)
         if isinstance(old, VRegion):
             origin = ("s", key)
             ln = reg_atom(("len", origin), 0, I64MAX)
